@@ -68,6 +68,22 @@ func checkWalk(k *K, gg traverse.Graph, start int, salt uint64, r *vrt.Rand) {
 		fclass = "filter"
 	}
 
+	// hub: the node with most allowed successors. A walk from it that is
+	// stopped at the first non-start node leaves outdeg-1 nodes pending in
+	// the traverser's queue/stack (the reuse histories below need >= 2).
+	hub := 0
+	for i := 1; i < g.N; i++ {
+		if bits.OnesCount64(adj[i]) > bits.OnesCount64(adj[hub]) {
+			hub = i
+		}
+	}
+	pending := bits.OnesCount64(adj[hub]) - 1
+	pclass := "pending<2"
+	if pending >= 2 {
+		pclass = "pending>=2"
+	}
+	histNames := [...]string{"fresh", "after-reset", "after-early-stop-and-reset", "after-early-stop-continue-and-reset"}
+
 	mkTraverse := func(l *travLog) func(graph.Edge) bool {
 		return func(e graph.Edge) bool {
 			if e == nil {
@@ -97,18 +113,54 @@ func checkWalk(k *K, gg traverse.Graph, start int, salt uint64, r *vrt.Rand) {
 
 	// ---- BFS: complete walk, then Reset and walk again with a target,
 	// then continue from a second start without Reset.
-	for pass := 0; pass < 2; pass++ {
+	for pass := 0; pass < 4; pass++ {
 		bf := &traverse.BreadthFirst{}
 		var lg travLog
 		bf.Visit = rec(&lg.visit, &lg)
-		if salt != 0 || pass == 1 {
+		if salt != 0 || pass >= 1 {
 			bf.Traverse = mkTraverse(&lg)
 		}
-		if pass == 1 {
-			// dirty the traverser first, then Reset: state must not leak
+		switch pass {
+		case 1:
+			// dirty the traverser with a completed walk, then Reset: state must not leak
 			junk := r.Intn(g.N)
 			if !k.try("BreadthFirst.Walk", func() { bf.Walk(gg, node(junk), nil) }) {
 				return
+			}
+			bf.Reset()
+			lg = travLog{}
+		case 2, 3:
+			// dirty it with a walk that until stops at the first node of
+			// depth 1, i.e. with the hub's other successors still queued
+			var ret graph.Node
+			if !k.try("BreadthFirst.Walk", func() {
+				ret = bf.Walk(gg, node(hub), func(n graph.Node, d int) bool { return d >= 1 })
+			}) {
+				return
+			}
+			k.eval("BreadthFirst.Walk", "early-stop|"+fclass+"|"+pclass, pending >= 2)
+			obsE := map[string]any{"start": g.IDs[hub], "visit": g.idxToIDs(lg.visit), "filter_salt": salt}
+			if adj[hub] != 0 && (ret == nil || idx[ret.ID()] == hub || adj[hub]>>uint(idx[ret.ID()])&1 == 0) {
+				k.viol("BreadthFirst.Walk|early-stop|first-depth-1-node-not-returned", obsE, "Walk from %d with until(depth>=1) returned %v, want a successor of the start", g.IDs[hub], ret)
+				return
+			}
+			if adj[hub] == 0 && ret != nil {
+				k.viol("BreadthFirst.Walk|early-stop|returned-node-though-until-never-true", obsE, "Walk returned %d", ret.ID())
+				return
+			}
+			if pass == 3 {
+				// continue from another start without Reset: only safety is
+				// judged (the pending nodes make the exact outcome unspecified)
+				s3 := r.Intn(g.N)
+				if !k.try("BreadthFirst.Walk", func() { bf.Walk(gg, node(s3), nil) }) {
+					return
+				}
+				k.eval("BreadthFirst.Walk", "continue-after-early-stop|"+fclass+"|"+pclass, pending >= 2)
+				obsE["second_start"] = g.IDs[s3]
+				obsE["visit"] = g.idxToIDs(lg.visit)
+				if !judgeVisitedWithin(k, "BreadthFirst.Walk|continue-after-early-stop|", obsE, lg.visit, reachFrom(adj, hub, all)|reachFrom(adj, s3, all), "Visit") {
+					return
+				}
 			}
 			bf.Reset()
 			lg = travLog{}
@@ -124,9 +176,13 @@ func checkWalk(k *K, gg traverse.Graph, start int, salt uint64, r *vrt.Rand) {
 		if !k.try("BreadthFirst.Walk", func() { ret = bf.Walk(gg, node(start), until) }) {
 			return
 		}
-		k.eval("BreadthFirst.Walk", fmt.Sprintf("full|%s|reset=%d|reach=%s", fclass, pass, countClass(bits.OnesCount64(reach))), reach != 1<<uint(start))
+		hclass := ""
+		if pass >= 2 {
+			hclass = "|" + pclass
+		}
+		k.eval("BreadthFirst.Walk", fmt.Sprintf("full|%s|hist=%s%s|reach=%s", fclass, histNames[pass], hclass, countClass(bits.OnesCount64(reach))), reach != 1<<uint(start) && (pass < 2 || pending >= 2))
 		obs := map[string]any{"start": g.IDs[start], "visit": g.idxToIDs(lg.visit), "until": g.idxToIDs(lg.until), "depth": lg.depth, "filter_salt": salt}
-		sigp := "BreadthFirst.Walk|" + [...]string{"fresh", "after-reset"}[pass] + "|"
+		sigp := "BreadthFirst.Walk|" + histNames[pass] + "|"
 		if lg.badEdge != "" || lg.unknown {
 			k.viol(sigp+"callback-given-foreign-node-or-edge", obs, "%s", lg.badEdge)
 			return
@@ -233,17 +289,51 @@ func checkWalk(k *K, gg traverse.Graph, start int, salt uint64, r *vrt.Rand) {
 	}
 
 	// ---- DFS
-	for pass := 0; pass < 2; pass++ {
+	for pass := 0; pass < 4; pass++ {
 		df := &traverse.DepthFirst{}
 		var lg travLog
 		df.Visit = rec(&lg.visit, &lg)
-		if salt != 0 || pass == 1 {
+		if salt != 0 || pass >= 1 {
 			df.Traverse = mkTraverse(&lg)
 		}
-		if pass == 1 {
+		switch pass {
+		case 1:
 			junk := r.Intn(g.N)
 			if !k.try("DepthFirst.Walk", func() { df.Walk(gg, node(junk), nil) }) {
 				return
+			}
+			df.Reset()
+			lg = travLog{}
+		case 2, 3:
+			// stopped at the first node after the start: the hub's other
+			// successors are still on the stack
+			var ret graph.Node
+			if !k.try("DepthFirst.Walk", func() {
+				ret = df.Walk(gg, node(hub), func(n graph.Node) bool { return n.ID() != g.IDs[hub] })
+			}) {
+				return
+			}
+			k.eval("DepthFirst.Walk", "early-stop|"+fclass+"|"+pclass, pending >= 2)
+			obsE := map[string]any{"start": g.IDs[hub], "visit": g.idxToIDs(lg.visit), "filter_salt": salt}
+			if adj[hub] != 0 && (ret == nil || idx[ret.ID()] == hub || adj[hub]>>uint(idx[ret.ID()])&1 == 0) {
+				k.viol("DepthFirst.Walk|early-stop|first-successor-not-returned", obsE, "Walk from %d stopped at the first other node returned %v, want a successor of the start", g.IDs[hub], ret)
+				return
+			}
+			if adj[hub] == 0 && ret != nil {
+				k.viol("DepthFirst.Walk|early-stop|returned-node-though-until-never-true", obsE, "Walk returned %d", ret.ID())
+				return
+			}
+			if pass == 3 {
+				s3 := r.Intn(g.N)
+				if !k.try("DepthFirst.Walk", func() { df.Walk(gg, node(s3), nil) }) {
+					return
+				}
+				k.eval("DepthFirst.Walk", "continue-after-early-stop|"+fclass+"|"+pclass, pending >= 2)
+				obsE["second_start"] = g.IDs[s3]
+				obsE["visit"] = g.idxToIDs(lg.visit)
+				if !judgeVisitedWithin(k, "DepthFirst.Walk|continue-after-early-stop|", obsE, lg.visit, reachFrom(adj, hub, all)|reachFrom(adj, s3, all), "Visit") {
+					return
+				}
 			}
 			df.Reset()
 			lg = travLog{}
@@ -257,9 +347,13 @@ func checkWalk(k *K, gg traverse.Graph, start int, salt uint64, r *vrt.Rand) {
 		if !k.try("DepthFirst.Walk", func() { ret = df.Walk(gg, node(start), until) }) {
 			return
 		}
-		k.eval("DepthFirst.Walk", fmt.Sprintf("full|%s|reset=%d|reach=%s", fclass, pass, countClass(bits.OnesCount64(reach))), reach != 1<<uint(start))
+		hclass := ""
+		if pass >= 2 {
+			hclass = "|" + pclass
+		}
+		k.eval("DepthFirst.Walk", fmt.Sprintf("full|%s|hist=%s%s|reach=%s", fclass, histNames[pass], hclass, countClass(bits.OnesCount64(reach))), reach != 1<<uint(start) && (pass < 2 || pending >= 2))
 		obs := map[string]any{"start": g.IDs[start], "visit": g.idxToIDs(lg.visit), "until": g.idxToIDs(lg.until), "filter_salt": salt}
-		sigp := "DepthFirst.Walk|" + [...]string{"fresh", "after-reset"}[pass] + "|"
+		sigp := "DepthFirst.Walk|" + histNames[pass] + "|"
 		if lg.badEdge != "" || lg.unknown {
 			k.viol(sigp+"callback-given-foreign-node-or-edge", obs, "%s", lg.badEdge)
 			return
@@ -369,6 +463,24 @@ func judgeVisited(k *K, sigp string, obs any, seq []int, want uint64, what strin
 	return true
 }
 
+// judgeVisitedWithin: over a whole reuse history the callback is called at
+// most once per node and only for nodes inside within.
+func judgeVisitedWithin(k *K, sigp string, obs any, seq []int, within uint64, what string) bool {
+	var seen uint64
+	for _, v := range seq {
+		if seen>>uint(v)&1 == 1 {
+			k.viol(sigp+what+"-called-twice-for-a-node", obs, "%s called twice for node %d", what, k.g.IDs[v])
+			return false
+		}
+		seen |= 1 << uint(v)
+	}
+	if seen&^within != 0 {
+		k.viol(sigp+what+"-called-for-unreachable-node", obs, "%s called for %v which are reachable from neither start", what, k.g.maskToIDs(seen&^within))
+		return false
+	}
+	return true
+}
+
 // judgeOffered: in a complete walk every edge leaving a visited node is
 // offered to Traverse, and nothing else is.
 func judgeOffered(k *K, sigp string, obs any, offered [][2]int, reach uint64) bool {
@@ -437,28 +549,83 @@ func checkWalkAll(k *K, ug graph.Undirected, salt uint64) {
 			}
 			cur = append(cur, n.ID())
 		}
-		ok := false
-		// run twice on the same traverser: WalkAll resets it itself
-		for rep := 0; rep < 2; rep++ {
+		// One traverser value per routine is reused through a history:
+		// fresh -> WalkAll again -> Walk stopped early by until with the hub's
+		// other neighbours still pending -> WalkAll -> early stop, a further
+		// Walk without Reset -> WalkAll. WalkAll resets the traverser itself,
+		// so every WalkAll must group the nodes like a fresh traverser does.
+		hub := 0
+		for i := 1; i < g.N; i++ {
+			if bits.OnesCount64(adj[i]) > bits.OnesCount64(adj[hub]) {
+				hub = i
+			}
+		}
+		pclass := "pending<2"
+		if g.N > 0 && bits.OnesCount64(adj[hub]) >= 3 {
+			pclass = "pending>=2"
+		}
+		bf := &traverse.BreadthFirst{Traverse: trav}
+		df := &traverse.DepthFirst{Traverse: trav}
+		isBF := which == "BreadthFirst.WalkAll"
+		hists := [...]string{"fresh", "after-WalkAll", "after-early-stop", "after-early-stop-and-continue"}
+		for rep := 0; rep < len(hists) && g.N > 0; rep++ {
+			if rep >= 2 {
+				hubNode := simpleNode(g.IDs[hub])
+				other := simpleNode(g.IDs[(hub+1+rep)%g.N])
+				ok := true
+				if isBF {
+					ok = k.try("BreadthFirst.Walk", func() {
+						bf.Reset() // forget the completed WalkAll, else nothing is left to explore
+						bf.Walk(ug, hubNode, func(n graph.Node, d int) bool { return d >= 1 })
+						if rep == 3 {
+							bf.Walk(ug, other, nil)
+						}
+					})
+				} else {
+					ok = k.try("DepthFirst.Walk", func() {
+						df.Reset()
+						df.Walk(ug, hubNode, func(n graph.Node) bool { return n.ID() != hubNode.ID() })
+						if rep == 3 {
+							df.Walk(ug, other, nil)
+						}
+					})
+				}
+				if !ok {
+					return
+				}
+				k.eval(which[:len(which)-3], "early-stop-before-WalkAll|"+fclass+"|"+pclass, pclass == "pending>=2")
+			}
 			comps, cur, open, protocol = nil, nil, false, ""
-			if which == "BreadthFirst.WalkAll" {
-				bf := &traverse.BreadthFirst{Traverse: trav}
+			var ok bool
+			if isBF {
 				ok = k.try(which, func() { bf.WalkAll(ug, before, after, during) })
 			} else {
-				df := &traverse.DepthFirst{Traverse: trav}
 				ok = k.try(which, func() { df.WalkAll(ug, before, after, during) })
 			}
 			if !ok {
 				return
 			}
-			k.eval(which, fclass+"|comps="+countClass(len(want)), g.N > 1)
+			hc := hists[rep]
+			if rep >= 2 {
+				hc += "|" + pclass
+			}
+			k.eval(which, fclass+"|hist="+hc+"|comps="+countClass(len(want)), g.N > 1 && (rep < 2 || pclass == "pending>=2"))
+			obs := map[string]any{"groups": comps, "history": hists[rep], "early_stop_start": g.IDs[hub], "filter_salt": salt}
 			if protocol != "" || open {
-				k.viol(which+"|protocol|before-after-not-bracketing", comps, "%s: %s", which, protocol)
+				k.viol(which+"|"+hists[rep]+"|before-after-not-bracketing", obs, "%s (%s): %s", which, hists[rep], protocol)
 				return
 			}
 			if got := setOfSetsKeys(comps); !equalStrings(got, want) {
-				k.viol(which+"|components|not-the-connected-components", comps, "%s groups %v, the connected components are %v", which, got, want)
+				k.viol(which+"|"+hists[rep]+"|groups-not-the-connected-components", obs, "%s (%s) groups %v, the connected components are %v", which, hists[rep], got, want)
 				return
+			}
+			// Visited after WalkAll: every node
+			for v := 0; v < g.N; v++ {
+				n := simpleNode(g.IDs[v])
+				if (isBF && !bf.Visited(n)) || (!isBF && !df.Visited(n)) {
+					k.viol(which+"|"+hists[rep]+"|node-not-Visited-afterwards", obs, "%s (%s): Visited(%d) is false after WalkAll", which, hists[rep], g.IDs[v])
+					return
+				}
 			}
 		}
 	}
